@@ -67,9 +67,35 @@
 //     installed. Whether a rejection that happens at installation is reported
 //     to the otel error handler is only recorded as a class (the statement
 //     does not ask for it).
+//   - In 40% of the programs the installed MeterProvider is not the SDK's but a
+//     WRAPPER of the harness (refProvider / refMeter, embedding the API's
+//     embedded.MeterProvider and the SDK's meter) that answers the creation of
+//     instruments whose name carries a mark (generated per instrument, about 1
+//     in 12) with (nil, err), and RegisterCallback with (nil, err) when one of
+//     the instruments it is given is nil (= was refused), and hands everything
+//     else to the SDK meter. Such instruments / callbacks are treated like the
+//     ones with a refused name: nothing is asserted about their data, calls on
+//     them must simply not panic, installation and everything else complete,
+//     everything NOT refused forwards as before. (Without the wrapper the
+//     marked names are ordinary instruments.)
+//   - About one measurement in five (and a second sweep measurement for half
+//     of the handles) carries a value outside the +-4^k code: 0 (most often),
+//     -0, MaxInt64 / MinInt64 / 2^53+1, MaxFloat64, the smallest denormal, 0.1,
+//     +-Inf, NaN, negative values - negative ones only on up-down counters and
+//     gauges, NaN not on monotonic counters (the API leaves those undefined).
+//     Such a measurement is recorded with an attribute of its own (sv=<index>),
+//     so it owns a data point: issued after installation returned, that point
+//     must exist in every later collection (also for an increment of 0) and
+//     report exactly that value (histograms: count 1, sum = value; floats
+//     compared with ==, NaN with NaN); a point that exists must report that
+//     value. Half of the RegisterCallback callbacks also observe 0 (attributes
+//     cb, z) on each of their instruments: when the callback ran, that point
+//     must be in the collection with value 0.
 //   - The only errors that may reach the otel error handler are those
-//     rejections (ErrInstrumentName, "invalid observable"), at most one per
-//     provoking operation; every other op and every Collect must succeed.
+//     rejections (ErrInstrumentName, "invalid observable", the wrapper's two
+//     errors), at most one per provoking operation; every other op and every
+//     Collect must succeed. A panic escaping from any op is caught per op and
+//     reported as the first violation.
 //   - Deadlock freedom: the program simply runs to completion; a hang is turned
 //     into a violation by the vk watchdog (goroutine dump) and the driver.
 package c16
@@ -79,6 +105,7 @@ import (
 	"errors"
 	"fmt"
 	"math"
+	"runtime/debug"
 	"sort"
 	"strings"
 	"sync"
@@ -91,6 +118,7 @@ import (
 	"go.opentelemetry.io/otel/attribute"
 	"go.opentelemetry.io/otel/internal/global"
 	"go.opentelemetry.io/otel/metric"
+	"go.opentelemetry.io/otel/metric/embedded"
 	"go.opentelemetry.io/otel/propagation"
 	sdkmetric "go.opentelemetry.io/otel/sdk/metric"
 	"go.opentelemetry.io/otel/sdk/metric/metricdata"
@@ -120,12 +148,16 @@ type Op struct {
 	R   int    `json:"r,omitempty"`   // collect: reader index
 	Y   int    `json:"y,omitempty"`   // reg: perturbation inside the callback, before it observes (vk.Perturb)
 	Bad int    `json:"bad,omitempty"` // inst: 1..3 = a name the SDK refuses (leading digit / space / longer than 255)
+	Ref bool   `json:"ref,omitempty"` // inst: the name carries the mark the refusing wrapper provider (Case.Wrap) answers with (nil, err)
+	Sv  int    `json:"sv,omitempty"`  // rec: special value class (0 = the coded value +-4^Bit); recorded with an attribute of its own (sv=Bit)
+	Z   bool   `json:"z,omitempty"`   // reg: the callback also observes 0 (attributes cb, z) on every instrument
 }
 
 // Case is one generated program.
 type Case struct {
 	Phases  [][][]Op `json:"phases"`
 	Readers int      `json:"readers"` // ManualReaders of the installed MeterProvider (1-3)
+	Wrap    bool     `json:"wrap"`    // the installed MeterProvider is a wrapper of the harness that refuses marked instruments with (nil, err)
 	Runs    int      `json:"runs"`
 }
 
@@ -203,6 +235,10 @@ func scopeIndex(name, version, schema string, attrs attribute.Set) int {
 }
 
 func instName(op Op) string {
+	if op.Ref && op.Bad == 0 {
+		op.Ref = false
+		return instName(op) + refusedMark
+	}
 	switch op.Bad {
 	case 1:
 		return fmt.Sprintf("1st.%s_%d", kinds[op.Kd].short, op.N)
@@ -245,6 +281,195 @@ func mkOpts[T any](op Op, extra ...any) []T {
 		out = append(out, e.(T))
 	}
 	return out
+}
+
+// ---------------------------------------------------------------------
+// special measurement values (outside the 4^k code)
+
+func svAllowed(k kindDef) []int {
+	signed := k.shape == shapeUpDown || k.shape == shapeGauge
+	switch {
+	case !k.float && signed:
+		return []int{1, 2, 3, 4, 5}
+	case !k.float:
+		return []int{1, 2, 3}
+	case signed:
+		return []int{1, 2, 3, 4, 5, 6, 7, 8, 9}
+	case k.shape == shapeHist:
+		return []int{1, 2, 3, 4, 5, 6, 7}
+	}
+	return []int{1, 2, 3, 4, 5, 6} // monotonic float counter: non-negative, no NaN
+}
+
+func svInt(sv int) int64 {
+	switch sv {
+	case 2:
+		return math.MaxInt64
+	case 3:
+		return 1<<53 + 1
+	case 4:
+		return -1
+	case 5:
+		return math.MinInt64
+	}
+	return 0
+}
+
+func svFloat(sv int) float64 {
+	switch sv {
+	case 2:
+		return math.Copysign(0, -1)
+	case 3:
+		return math.MaxFloat64
+	case 4:
+		return math.SmallestNonzeroFloat64
+	case 5:
+		return math.Inf(1)
+	case 6:
+		return 0.1
+	case 7:
+		return math.NaN()
+	case 8:
+		return -1.5
+	case 9:
+		return math.Inf(-1)
+	}
+	return 0
+}
+
+func sameFloat(a, b float64) bool { return a == b || (math.IsNaN(a) && math.IsNaN(b)) }
+
+// ---------------------------------------------------------------------
+// a MeterProvider of the harness that wraps the SDK's and refuses marked
+// instruments the way a strict bridge would: (nil, err); callbacks that touch
+// a refused (hence nil) instrument are refused the same way. Everything else
+// goes to the real SDK meter.
+
+const refusedMark = "_refused"
+
+var (
+	errRefused   = errors.New("verif: instrument refused by the wrapping provider")
+	errRefusedCB = errors.New("verif: callback refused by the wrapping provider: it observes a refused instrument")
+)
+
+type refProvider struct {
+	embedded.MeterProvider
+	inner metric.MeterProvider
+}
+
+func (p *refProvider) Meter(name string, opts ...metric.MeterOption) metric.Meter {
+	return &refMeter{Meter: p.inner.Meter(name, opts...)}
+}
+
+type refMeter struct{ metric.Meter }
+
+func refusedName(n string) bool { return strings.HasSuffix(n, refusedMark) }
+
+func (m *refMeter) Int64Counter(n string, o ...metric.Int64CounterOption) (metric.Int64Counter, error) {
+	if refusedName(n) {
+		return nil, errRefused
+	}
+	return m.Meter.Int64Counter(n, o...)
+}
+
+func (m *refMeter) Int64UpDownCounter(n string, o ...metric.Int64UpDownCounterOption) (metric.Int64UpDownCounter, error) {
+	if refusedName(n) {
+		return nil, errRefused
+	}
+	return m.Meter.Int64UpDownCounter(n, o...)
+}
+
+func (m *refMeter) Int64Histogram(n string, o ...metric.Int64HistogramOption) (metric.Int64Histogram, error) {
+	if refusedName(n) {
+		return nil, errRefused
+	}
+	return m.Meter.Int64Histogram(n, o...)
+}
+
+func (m *refMeter) Int64Gauge(n string, o ...metric.Int64GaugeOption) (metric.Int64Gauge, error) {
+	if refusedName(n) {
+		return nil, errRefused
+	}
+	return m.Meter.Int64Gauge(n, o...)
+}
+
+func (m *refMeter) Int64ObservableCounter(n string, o ...metric.Int64ObservableCounterOption) (metric.Int64ObservableCounter, error) {
+	if refusedName(n) {
+		return nil, errRefused
+	}
+	return m.Meter.Int64ObservableCounter(n, o...)
+}
+
+func (m *refMeter) Int64ObservableUpDownCounter(n string, o ...metric.Int64ObservableUpDownCounterOption) (metric.Int64ObservableUpDownCounter, error) {
+	if refusedName(n) {
+		return nil, errRefused
+	}
+	return m.Meter.Int64ObservableUpDownCounter(n, o...)
+}
+
+func (m *refMeter) Int64ObservableGauge(n string, o ...metric.Int64ObservableGaugeOption) (metric.Int64ObservableGauge, error) {
+	if refusedName(n) {
+		return nil, errRefused
+	}
+	return m.Meter.Int64ObservableGauge(n, o...)
+}
+
+func (m *refMeter) Float64Counter(n string, o ...metric.Float64CounterOption) (metric.Float64Counter, error) {
+	if refusedName(n) {
+		return nil, errRefused
+	}
+	return m.Meter.Float64Counter(n, o...)
+}
+
+func (m *refMeter) Float64UpDownCounter(n string, o ...metric.Float64UpDownCounterOption) (metric.Float64UpDownCounter, error) {
+	if refusedName(n) {
+		return nil, errRefused
+	}
+	return m.Meter.Float64UpDownCounter(n, o...)
+}
+
+func (m *refMeter) Float64Histogram(n string, o ...metric.Float64HistogramOption) (metric.Float64Histogram, error) {
+	if refusedName(n) {
+		return nil, errRefused
+	}
+	return m.Meter.Float64Histogram(n, o...)
+}
+
+func (m *refMeter) Float64Gauge(n string, o ...metric.Float64GaugeOption) (metric.Float64Gauge, error) {
+	if refusedName(n) {
+		return nil, errRefused
+	}
+	return m.Meter.Float64Gauge(n, o...)
+}
+
+func (m *refMeter) Float64ObservableCounter(n string, o ...metric.Float64ObservableCounterOption) (metric.Float64ObservableCounter, error) {
+	if refusedName(n) {
+		return nil, errRefused
+	}
+	return m.Meter.Float64ObservableCounter(n, o...)
+}
+
+func (m *refMeter) Float64ObservableUpDownCounter(n string, o ...metric.Float64ObservableUpDownCounterOption) (metric.Float64ObservableUpDownCounter, error) {
+	if refusedName(n) {
+		return nil, errRefused
+	}
+	return m.Meter.Float64ObservableUpDownCounter(n, o...)
+}
+
+func (m *refMeter) Float64ObservableGauge(n string, o ...metric.Float64ObservableGaugeOption) (metric.Float64ObservableGauge, error) {
+	if refusedName(n) {
+		return nil, errRefused
+	}
+	return m.Meter.Float64ObservableGauge(n, o...)
+}
+
+func (m *refMeter) RegisterCallback(f metric.Callback, insts ...metric.Observable) (metric.Registration, error) {
+	for _, i := range insts {
+		if i == nil {
+			return nil, errRefusedCB
+		}
+	}
+	return m.Meter.RegisterCallback(f, insts...)
 }
 
 func obsValue(cb, collect int) int64 { return int64(cb+1)*1000 + int64(collect) + 1 }
@@ -304,6 +529,7 @@ type opRec struct {
 	skipped    bool
 	err        error
 	note       string
+	panicked   string
 }
 
 type collKey struct{}
@@ -329,6 +555,7 @@ type cbMeta struct {
 	opt     bool
 	tainted bool // observes an instrument whose name the SDK refuses: the SDK rejects the registration
 	regPh   int
+	z       bool // also observes 0 with attributes (cb, z)
 	insts   []int
 	reg     *opRec
 	unregs  []*opRec
@@ -337,6 +564,7 @@ type cbMeta struct {
 type world struct {
 	clock   *vk.Clock
 	mp      *sdkmetric.MeterProvider
+	install metric.MeterProvider // what otel.SetMeterProvider is given: the SDK's or the refusing wrapper around it
 	readers []*sdkmetric.ManualReader
 	rdMu    []sync.Mutex
 	tp      *sdktrace.TracerProvider
@@ -386,11 +614,26 @@ func (w *world) collect(rd int) *collection {
 	return col
 }
 
-func attrOpt(a int) attribute.Set {
-	if a == 1 {
-		return attribute.NewSet(attribute.Int("a", 1))
+func measAttrs(op Op) attribute.Set {
+	var kvs []attribute.KeyValue
+	if op.A == 1 {
+		kvs = append(kvs, attribute.Int("a", 1))
 	}
-	return *attribute.EmptySet()
+	if op.Sv != 0 {
+		kvs = append(kvs, attribute.Int("sv", op.Bit))
+	}
+	return attribute.NewSet(kvs...)
+}
+
+func measKey(op Op) string {
+	k := ""
+	if op.A == 1 {
+		k = "a=1;"
+	}
+	if op.Sv != 0 {
+		k += fmt.Sprintf("sv=%d;", op.Bit)
+	}
+	return k
 }
 
 func (w *world) createInst(op Op) (any, error) {
@@ -457,7 +700,11 @@ func recValue(kd int, op Op) int64 {
 func (w *world) record(h any, kd int, op Op) {
 	ctx := context.Background()
 	v := recValue(kd, op)
-	set := attrOpt(op.A)
+	fv := float64(v)
+	if op.Sv != 0 {
+		v, fv = svInt(op.Sv), svFloat(op.Sv)
+	}
+	set := measAttrs(op)
 	switch kd {
 	case 0:
 		h.(metric.Int64Counter).Add(ctx, v, metric.WithAttributeSet(set))
@@ -468,13 +715,13 @@ func (w *world) record(h any, kd int, op Op) {
 	case 3:
 		h.(metric.Int64Gauge).Record(ctx, v, metric.WithAttributeSet(set))
 	case 4:
-		h.(metric.Float64Counter).Add(ctx, float64(v), metric.WithAttributeSet(set))
+		h.(metric.Float64Counter).Add(ctx, fv, metric.WithAttributeSet(set))
 	case 5:
-		h.(metric.Float64UpDownCounter).Add(ctx, float64(v), metric.WithAttributeSet(set))
+		h.(metric.Float64UpDownCounter).Add(ctx, fv, metric.WithAttributeSet(set))
 	case 6:
-		h.(metric.Float64Histogram).Record(ctx, float64(v), metric.WithAttributeSet(set))
+		h.(metric.Float64Histogram).Record(ctx, fv, metric.WithAttributeSet(set))
 	case 7:
-		h.(metric.Float64Gauge).Record(ctx, float64(v), metric.WithAttributeSet(set))
+		h.(metric.Float64Gauge).Record(ctx, fv, metric.WithAttributeSet(set))
 	}
 }
 
@@ -518,6 +765,11 @@ func runOnce(c Case) ([]vk.Violation, map[string]bool) {
 	}
 	w.rdMu = make([]sync.Mutex, nReaders)
 	w.mp = sdkmetric.NewMeterProvider(mpOpts...)
+	w.install = w.mp
+	if c.Wrap {
+		w.install = &refProvider{inner: w.mp}
+	}
+	rejected := func(op Op) bool { return op.Bad != 0 || (c.Wrap && op.Ref) }
 	w.sp = &recSP{clock: clock, ended: map[string][]spanSeen{}, start: map[string]int{}}
 	w.tp = sdktrace.NewTracerProvider(sdktrace.WithSpanProcessor(w.sp), sdktrace.WithResource(resource.Empty()))
 	w.pr = &recProp{}
@@ -609,10 +861,10 @@ func runOnce(c Case) ([]vk.Violation, map[string]bool) {
 			sc := meterScope[op.U]
 			im[op.D] = instMeta{defined: true, meter: op.U, scope: sc, op: op, ident: fmt.Sprintf("%d/%s", sc, instName(op))}
 			if op.OC {
-				cm[op.CB] = cbMeta{defined: true, opt: true, insts: []int{op.D}, reg: &recs[ph][g][i]}
+				cm[op.CB] = cbMeta{defined: true, opt: true, tainted: rejected(op), insts: []int{op.D}, reg: &recs[ph][g][i]}
 			}
 		case "reg":
-			cm[op.CB] = cbMeta{defined: true, insts: op.Is, reg: &recs[ph][g][i], regPh: ph}
+			cm[op.CB] = cbMeta{defined: true, insts: op.Is, reg: &recs[ph][g][i], regPh: ph, z: op.Z}
 		}
 	})
 	each(func(ph, g, i int, op Op) {
@@ -634,7 +886,7 @@ func runOnce(c Case) ([]vk.Violation, map[string]bool) {
 			}
 			if valid {
 				for _, s := range op.Is {
-					if im[s].op.Bad != 0 {
+					if rejected(im[s].op) {
 						cm[op.CB].tainted = true
 					}
 				}
@@ -677,6 +929,15 @@ func runOnce(c Case) ([]vk.Violation, map[string]bool) {
 		ctx := context.Background()
 		vk.Perturb(op.P)
 		r.start = clock.Tick()
+		defer func() {
+			// a panic escaping from the code under test: note it (first
+			// violation) and let the rest of the program run
+			if p := recover(); p != nil {
+				r.panicked = fmt.Sprintf("%v\n%s", p, debug.Stack())
+				r.end = clock.Tick()
+				r.done = true
+			}
+		}()
 		switch op.K {
 		case "mprov":
 			w.mprovs[op.D] = otel.GetMeterProvider()
@@ -751,7 +1012,7 @@ func runOnce(c Case) ([]vk.Violation, map[string]bool) {
 				break
 			}
 			cb := op.CB
-			delay := op.Y
+			delay, zero := op.Y, op.Z
 			f := func(ctx context.Context, o metric.Observer) error {
 				j := w.invoked(ctx, cb)
 				v := obsValue(cb, j)
@@ -759,8 +1020,14 @@ func runOnce(c Case) ([]vk.Violation, map[string]bool) {
 				for x, h := range hs {
 					if kinds[ks[x]].float {
 						o.ObserveFloat64(h.(metric.Float64Observable), float64(v), metric.WithAttributes(attribute.Int("cb", cb)))
+						if zero {
+							o.ObserveFloat64(h.(metric.Float64Observable), 0, metric.WithAttributes(attribute.Int("cb", cb), attribute.Int("z", 1)))
+						}
 					} else {
 						o.ObserveInt64(h.(metric.Int64Observable), v, metric.WithAttributes(attribute.Int("cb", cb)))
+						if zero {
+							o.ObserveInt64(h.(metric.Int64Observable), 0, metric.WithAttributes(attribute.Int("cb", cb), attribute.Int("z", 1)))
+						}
 					}
 				}
 				return nil
@@ -799,7 +1066,7 @@ func runOnce(c Case) ([]vk.Violation, map[string]bool) {
 		case "pause":
 			time.Sleep(100 * time.Microsecond)
 		case "set_mp":
-			otel.SetMeterProvider(w.mp)
+			otel.SetMeterProvider(w.install)
 		case "set_tp":
 			otel.SetTracerProvider(w.tp)
 		case "set_prop":
@@ -853,12 +1120,17 @@ func runOnce(c Case) ([]vk.Violation, map[string]bool) {
 	// refuses (reported when the placeholder is connected at installation, or
 	// returned by the constructor afterwards) and callbacks registered on such an
 	// instrument (rejected by the SDK's RegisterCallback).
+	each(func(ph, g, i int, op Op) {
+		if r := recs[ph][g][i]; r.panicked != "" {
+			bad("panic", "phase %d goroutine %d op %d (%s) panicked: %s", ph, g, i, op.K, r.panicked)
+		}
+	})
 	nameErrs, obsErrs := 0, 0
 	for _, e := range errs.Errors() {
 		switch {
-		case errors.Is(e, sdkmetric.ErrInstrumentName):
+		case errors.Is(e, sdkmetric.ErrInstrumentName), errors.Is(e, errRefused):
 			nameErrs++
-		case strings.Contains(e.Error(), "invalid observable"):
+		case strings.Contains(e.Error(), "invalid observable"), errors.Is(e, errRefusedCB):
 			obsErrs++
 		default:
 			bad("error_reported", "an error reached the otel error handler which no operation of the program explains: %v", e)
@@ -876,15 +1148,18 @@ func runOnce(c Case) ([]vk.Violation, map[string]bool) {
 	each(func(ph, g, i int, op Op) {
 		r := recs[ph][g][i]
 		switch {
-		case op.K == "inst" && op.Bad != 0 && r.done && !r.skipped:
+		case op.K == "inst" && rejected(op) && r.done && !r.skipped:
 			badOps++
 			if ph < ipMP {
 				preBad[im[op.D].ident] = true
+				if c.Wrap && op.Ref {
+					classes["wrapper_refuses_pre_install_instrument_with_nil_and_error"] = true
+				}
 			}
 			if r.err != nil {
 				classes["refused_instrument_name:constructor_returned_error"] = true
-				if !errors.Is(r.err, sdkmetric.ErrInstrumentName) {
-					bad("op_failed", "phase %d goroutine %d op %d: creating %q returned %v, expected an ErrInstrumentName error or a placeholder", ph, g, i, instName(op), r.err)
+				if !errors.Is(r.err, sdkmetric.ErrInstrumentName) && !errors.Is(r.err, errRefused) {
+					bad("op_failed", "phase %d goroutine %d op %d: creating %q returned %v, expected the provider's rejection error or a placeholder", ph, g, i, instName(op), r.err)
 				}
 			} else {
 				classes["refused_instrument_name:placeholder"] = true
@@ -925,6 +1200,9 @@ func runOnce(c Case) ([]vk.Violation, map[string]bool) {
 	if obsErrs > taintedRegs {
 		bad("error_reported", "%d 'invalid observable' errors reached the error handler, the program registers only %d callbacks on refused instruments", obsErrs, taintedRegs)
 	}
+	if c.Wrap {
+		classes["installed_provider_is_refusing_wrapper"] = true
+	}
 	if ipMP >= 0 {
 		// Whether (and how often) the rejections are REPORTED is not part of
 		// the statement: only recorded as classes, never asserted.
@@ -955,11 +1233,14 @@ func runOnce(c Case) ([]vk.Violation, map[string]bool) {
 		start, end int64
 		ph         int
 		slot       int
+		sv         int
+		key        string // attribute key of its data point
 	}
 	type ident struct {
 		scope int
-		op    Op // first defining op (name/kind/desc/unit)
-		ms    []meas
+		op    Op     // first defining op (name/kind/desc/unit)
+		ms    []meas // coded measurements (+-4^bit, gauges bit+1)
+		sp    []meas // special values, each in a data point of its own
 	}
 	idents := map[string]*ident{}
 	var identOrder []string
@@ -979,7 +1260,12 @@ func runOnce(c Case) ([]vk.Violation, map[string]bool) {
 		r := recs[ph][g][i]
 		if op.K == "rec" && r.done && !r.skipped {
 			id := idents[im[op.U].ident]
-			id.ms = append(id.ms, meas{bit: op.Bit, neg: op.Neg && kinds[id.op.Kd].shape == shapeUpDown, attr: op.A, start: r.start, end: r.end, ph: ph, slot: op.U})
+			m := meas{bit: op.Bit, neg: op.Neg && kinds[id.op.Kd].shape == shapeUpDown, attr: op.A, start: r.start, end: r.end, ph: ph, slot: op.U, sv: op.Sv, key: measKey(op)}
+			if op.Sv != 0 {
+				id.sp = append(id.sp, m)
+			} else {
+				id.ms = append(id.ms, m)
+			}
 			if r.start < mpRet && r.end > mpIss {
 				classes["measurement_overlaps_SetMeterProvider(observed)"] = true
 			}
@@ -1011,7 +1297,8 @@ func runOnce(c Case) ([]vk.Violation, map[string]bool) {
 	type point struct {
 		v     int64
 		exact bool
-		count uint64 // histograms
+		f     float64 // raw value of float streams
+		count uint64  // histograms
 	}
 	type stream struct {
 		desc, unit string
@@ -1048,7 +1335,7 @@ func runOnce(c Case) ([]vk.Violation, map[string]bool) {
 			st.cumulative = d.Temporality == metricdata.CumulativeTemporality
 			for _, p := range d.DataPoints {
 				v, ok := toInt(p.Value)
-				st.pts[attrKey(p.Attributes)] = point{v: v, exact: ok}
+				st.pts[attrKey(p.Attributes)] = point{v: v, exact: ok, f: p.Value}
 			}
 		case metricdata.Gauge[int64]:
 			st.shape = shapeGauge
@@ -1059,7 +1346,7 @@ func runOnce(c Case) ([]vk.Violation, map[string]bool) {
 			st.float, st.shape = true, shapeGauge
 			for _, p := range d.DataPoints {
 				v, ok := toInt(p.Value)
-				st.pts[attrKey(p.Attributes)] = point{v: v, exact: ok}
+				st.pts[attrKey(p.Attributes)] = point{v: v, exact: ok, f: p.Value}
 			}
 		case metricdata.Histogram[int64]:
 			st.shape = shapeHist
@@ -1072,7 +1359,7 @@ func runOnce(c Case) ([]vk.Violation, map[string]bool) {
 			st.cumulative = d.Temporality == metricdata.CumulativeTemporality
 			for _, p := range d.DataPoints {
 				v, ok := toInt(p.Sum)
-				st.pts[attrKey(p.Attributes)] = point{v: v, exact: ok, count: p.Count}
+				st.pts[attrKey(p.Attributes)] = point{v: v, exact: ok, f: p.Sum, count: p.Count}
 			}
 		}
 		return st
@@ -1131,8 +1418,8 @@ func runOnce(c Case) ([]vk.Violation, map[string]bool) {
 		}
 		for _, key := range identOrder {
 			id := idents[key]
-			if id.op.Bad != 0 {
-				continue // refused by the SDK: nothing is asserted about its data
+			if rejected(id.op) {
+				continue // refused by the installed provider: nothing is asserted about its data
 			}
 			kd := kinds[id.op.Kd]
 			st := streams[key]
@@ -1159,10 +1446,54 @@ func runOnce(c Case) ([]vk.Violation, map[string]bool) {
 					sign[m.bit] = -1
 				}
 			}
+			spKeys := map[string]bool{}
+			for _, m := range id.sp {
+				spKeys[m.key] = true
+			}
 			if st != nil {
 				for ak := range st.pts {
-					if ak != attrKeys[0] && ak != attrKeys[1] {
+					if ak != attrKeys[0] && ak != attrKeys[1] && !spKeys[ak] {
 						bad("unexpected_datapoint", "Collect #%s: metric %s has a data point with attributes %q which no measurement used", cl, key, ak)
+					}
+				}
+			}
+			// special values: every such measurement has a data point of its own
+			for _, m := range id.sp {
+				var pt point
+				has := false
+				if st != nil {
+					pt, has = st.pts[m.key]
+				}
+				want := fmt.Sprint(svInt(m.sv))
+				if kd.float {
+					want = fmt.Sprint(svFloat(m.sv))
+				}
+				must := m.start > mpRet && m.end < col.start
+				if must {
+					classes["special_value_measured_after_install"] = true
+					if m.sv == 1 {
+						classes["zero_measured_after_install"] = true
+					}
+				}
+				switch {
+				case !has && must:
+					bad("measurement_lost", "Collect #%s (t=%d..%d): metric %s has no data point {%s} although the measurement of %s with these attributes (#%d, issued t=%d..%d in phase %d through instrument handle %d) was issued after SetMeterProvider had returned (t=%d) and returned before the collection started", cl, col.start, col.end, key, m.key, want, m.bit, m.start, m.end, m.ph, m.slot, mpRet)
+				case has && m.start > col.end:
+					bad("phantom_measurement", "Collect #%s: metric %s has a data point {%s} before that measurement was issued", cl, key, m.key)
+				case has:
+					ok := pt.v == svInt(m.sv) && pt.exact
+					if kd.float {
+						ok = sameFloat(pt.f, svFloat(m.sv))
+					}
+					if kd.shape == shapeHist && pt.count != 1 {
+						ok = false
+					}
+					if !ok {
+						got := fmt.Sprint(pt.v)
+						if kd.float {
+							got = fmt.Sprint(pt.f)
+						}
+						bad("measurement_value_changed", "Collect #%s: metric %s{%s} reports %s (count %d), the only measurement with these attributes carried %s", cl, key, m.key, got, pt.count, want)
 					}
 				}
 			}
@@ -1307,6 +1638,16 @@ func runOnce(c Case) ([]vk.Violation, map[string]bool) {
 					if st != nil {
 						pt, has = st.pts[fmt.Sprintf("cb=%d;", k)]
 					}
+					if cb.z && !cb.opt {
+						var zp point
+						zok := false
+						if st != nil {
+							zp, zok = st.pts[fmt.Sprintf("cb=%d;z=1;", k)]
+						}
+						if !zok || !zp.exact || zp.v != 0 {
+							bad("observation_lost", "Collect #%s: callback %d ran and observed 0 with attributes {cb=%d, z=1} on %s, the collection has %v (present %v)", cl, k, k, im[s].ident, zp.v, zok)
+						}
+					}
 					if !has || !pt.exact || pt.v != want {
 						bad("observation_lost", "Collect #%s: %s %d ran and observed %d on %s, the collection has %v (present %v)", cl, what, k, want, im[s].ident, pt.v, has)
 					}
@@ -1390,6 +1731,9 @@ func runOnce(c Case) ([]vk.Violation, map[string]bool) {
 				d = fmt.Sprintf("inst slot %d = meter[%d].%s option-callback=%v", op.D, op.U, instName(op), op.OC)
 			case "rec":
 				d = fmt.Sprintf("rec inst[%d] (%s) #%d value %d attr %d", op.U, im[op.U].ident, op.Bit, recValue(im[op.U].op.Kd, op), op.A)
+				if op.Sv != 0 {
+					d = fmt.Sprintf("rec inst[%d] (%s) #%d special value int %d / float %v attrs {%s}", op.U, im[op.U].ident, op.Bit, svInt(op.Sv), svFloat(op.Sv), measKey(op))
+				}
 			case "span":
 				d = fmt.Sprintf("span sp%d tracer[%d] %s", op.Sp, op.U, r.note)
 			case "reg":
@@ -1602,7 +1946,7 @@ func TestGlobalDelegation(t *testing.T) {
 	vk.Run(t, vk.Spec[Case]{
 		Property: "C16", Check: "global_delegation",
 		Rule: "generated five-phase concurrent programs over the public otel API, each executed twice from pristine globals: phase 0 (1-2 goroutines, before installation) obtains provider / propagator handles, meters and tracers (4 scopes with version / schema URL / attributes), instruments of all 14 kinds (shared identities, option callbacks), registers multi-instrument callbacks and unregisters some; " +
-			"phase 1 (1-7 goroutines) does the same plus measurements, spans, Inject/Extract, Collect while 1-3 goroutines each call otel.SetMeterProvider / SetTracerProvider / SetTextMapPropagator with one recording SDK (1-3 ManualReaders, recording SpanProcessor, recording propagator), 50% of the programs with a 'storm' (a meter with up to 10 instruments and 8 callbacks that a dedicated goroutine unregisters while the SDK is installed); phase 2 (1-4 goroutines) continues through old and new handles; phase 3 uses every handle once more and collects; phase 4 (>= 2 readers) lets every reader collect concurrently while the callbacks yield/sleep inside; about 1 instrument in 12 has a name the SDK refuses (callbacks on it are rejected at installation); self-installs (SetX(GetX())) anywhere; " +
+			"phase 1 (1-7 goroutines) does the same plus measurements, spans, Inject/Extract, Collect while 1-3 goroutines each call otel.SetMeterProvider / SetTracerProvider / SetTextMapPropagator with one recording SDK (1-3 ManualReaders, recording SpanProcessor, recording propagator), 50% of the programs with a 'storm' (a meter with up to 10 instruments and 8 callbacks that a dedicated goroutine unregisters while the SDK is installed); phase 2 (1-4 goroutines) continues through old and new handles; phase 3 uses every handle once more and collects; phase 4 (>= 2 readers) lets every reader collect concurrently while the callbacks yield/sleep inside; about 1 instrument in 12 has a name the SDK refuses (callbacks on it are rejected at installation); in 40% of the programs the installed provider is a wrapper of the harness that refuses marked instruments (about 1 in 12) with (nil, err) and callbacks touching them; about 1 measurement in 5 carries 0 / an extreme / a float special value in a data point of its own, half of the callbacks also observe 0; self-installs (SetX(GetX())) anywhere; " +
 			"non-trivial = a handle obtained before the installation is used after it AND an Unregister of a pre-install callback runs in the same phase as SetMeterProvider on another goroutine; distinct = distinct case encodings",
 		Quick: 1000, Thorough: 15000,
 		Gen: gen, Run: run, Repeat: 200,
